@@ -163,10 +163,10 @@ def trace(driver, types, nq, nt, steps=40):
     return ({"type": "trace", "driver": driver, "types": types, "n": nq, "steps": steps},
             {"type": "trace", "driver": driver, "types": types, "n": nt, "steps": 3 * steps})
 
-TRACE_NOTE = "; plus the implementation -> specification direction: a seeded driver (full byte range, longer buffers, random contents / histories) records one event per call and TLC accepts the trace iff every event is a step of the specification (spec/TraceFlat.tla)"
+TRACE_NOTE = "; plus the implementation -> specification direction (judged under this property's projection of spec/TraceFlat.tla only): a seeded driver (full byte range, longer buffers, random contents / histories) records one event per call and TLC accepts the trace iff every event is a step of the specification (spec/TraceFlat.tla)"
 for pid, (drv, types, nq, nt) in {
     "C01": ("dec", ALL_T, 6000, 60000), "C02": ("dec", ALL_T, 6000, 60000), "C05": ("dec", ALL_T, 6000, 60000), "C06": ("dec", ALL_T, 6000, 60000),
-    "C03": ("emp", ALL_T, 6000, 60000), "C15": ("emp", ALL_T, 6000, 60000), "C20": ("emp", ALL_T, 4000, 40000),
+    "C03": ("emp", ALL_T, 6000, 60000), "C15": ("emp", ALL_T, 6000, 60000), "C20": ("dflt", ALL_T, 4000, 40000),
     "C11": ("ops", VEC_T, 4000, 40000), "C12": ("ops", FLEX_T, 4000, 40000), "C13": ("ops", VEC_T + FLEX_T, 4000, 40000),
     "C14": ("ops", ALL_T[:0] + VEC_T + FLEX_T + COMP_T, 4000, 40000), "C18": ("ops", COMP_T, 3000, 30000),
 }.items():
